@@ -10,6 +10,53 @@ from common import Str, sx
 ID = 'C11'
 LEAN_MODULES = ['Cellml.Props.C11']
 N = {'quick': 3000, 'thorough': 100000}
+RULE = ('cases are construction recipes for SymPy trees (evaluate=True / evaluate=False per node). Fixed family, 56 693 '
+        'cases: every (parent, child, operand position) over sums, differences, products, quotients, powers (integer, '
+        'negative, rational, float, symbolic exponents, towers), negation, abs, the 22 one-argument table functions, '
+        'atan2, the 12 secondary trig functions, 6 relations, piecewise, 3-term sums/products and double divisions, '
+        'with negative / rational / float literals as the other operand, parents and children each evaluated and held; '
+        'and/or/piecewise/relation-of-relation combinations; unsupported constructs (gamma, Max, Min, Mod, erf, Matrix, '
+        'sign, Heaviside, Not, nan, oo) bare and nested; derivatives. Random family: trees of depth 2-6 over the same '
+        'vocabulary. quick = 1800 sampled fixed + 1200 random; thorough = all fixed + random up to 100 000. '
+        'non-trivial = the built tree is not a leaf; distinct = distinct recipe JSON')
+TRUSTED = ['Lean 4.33 kernel', 'axioms: propext, Classical.choice, Quot.sound',
+           'harness/translate_tables.py (the three printer tables)',
+           'correspondence harness harness/props/c11.py (emitted string = model string; CPython ast.parse = model tree)',
+           "SymPy 1.14 is modelled, not verified: precedence(), as_coeff_Mul/_keep_coeff/make_args, evaluation of Pow(b, 1), "
+           "the rebuilding done by codegen.rewriting.optimize (the model prints the tree optimize returns)",
+           'CPython\'s grammar is transcribed as C11.PyOK / C11.level and compared with ast.parse on every case']
+ASSUMPTIONS = ['real-number semantics: x*(y*z) printed as x * y * z is the same number (floating-point re-association is '
+               'not modelled); the oracle compares values at relative 1e-9',
+               'transcendental functions are uninterpreted in the theorems; their values are compared numerically by '
+               'the oracle (math vs mpmath)',
+               'symbol names are Python identifiers (the default symbol_function)']
+FINGERPRINT = {'cellmlmanip/printer.py': [
+    'Printer.doprint', 'Printer._bracket', 'Printer._bracket_args', 'Printer.emptyPrinter', 'Printer._print_Add',
+    'Printer._print_And', 'Printer._print_BooleanFalse', 'Printer._print_BooleanTrue', 'Printer._print_Derivative',
+    'Printer._print_Exp1', 'Printer._print_float', 'Printer._print_Float', 'Printer._print_Function',
+    'Printer._print_int', 'Printer._print_Integer', 'Printer._print_Mul', 'Printer._print_Or', 'Printer._print_Pi',
+    'Printer._print_ternary', 'Printer._print_Piecewise', 'Printer._print_ordinary_pow', 'Printer._print_Pow',
+    'Printer._print_Rational', 'Printer._print_Relational', 'Printer._print_Symbol', 'Printer.__init__']}
+MANIFEST = {
+    'technique': 'Lean 4 theorems over a model of the printer (layout tree + Python grammar predicate) + differential '
+                 'correspondence (string equality and CPython ast shape)',
+    'text': ('Proved in Lean for every SymPy tree of the printer\'s domain, any depth (lean/Cellml/Props/C11.lean): '
+             'print_groups — CPython parses the emitted string to exactly the tree the printer built (no regrouping, no '
+             'moved sign, no comparison chain); print_means — evaluating that tree gives the value of the expression '
+             'over any field, with functions uninterpreted and matched through the generated name table; print_rejects '
+             '— any construct without a print method or table entry in a printed position gives ValueError; one '
+             'theorem per entry of the generated _function_names, _literal_names and _extra_trig tables against '
+             'hand-written expected names/definitions. The pre-fix bracketing rules are kept with their proved '
+             'counterexamples (x**y**z, z / 1 / x, x - y + z). Tie: every (parent, child, position) triple, evaluated '
+             'and held forms, negative/rational/float literals in every position, random trees to depth 6: the '
+             'emitted string equals the model\'s string and ast.parse of it equals the model\'s tree. An independent '
+             'oracle evaluates the emitted code with math against an mpmath evaluation of the tree SymPy built.'),
+    'note': ('Trusted: Lean kernel; propext, Classical.choice, Quot.sound; the table translator; the harness. SymPy '
+             '(precedence, coefficient extraction, optimize) is modelled; about 6 % of random held trees fall outside '
+             'the modelled fragment of SymPy\'s re-evaluation and are checked by the oracle only. Known findings: '
+             'math.factorial rejects floats; acot(0); secondary trig left unrewritten in a top-level condition; a '
+             'SymPy bug (cos(w + (x + pi)) with a held inner sum) reaching the output through the sec/csc/cot rewrite.'),
+}
 
 # ------------------------------------------------------------------------------------------------ recipes -> SymPy
 # A case is {'r': recipe}. A recipe is a JSON list describing HOW the expression is constructed:
@@ -611,6 +658,35 @@ def fixed_cases():
     if _FIXED is None:
         _FIXED = list(exhaustive()) + list(logic_cases())
     return _FIXED
+
+
+def W(r, g):
+    return {'r': r, 'g': g}
+
+
+def corpus():
+    x, y, z = S('x'), S('y'), S('z')
+    out = [
+        W(['pow', True, ['pow', True, x, y], z], 'witness/tower'),
+        W(['pow', False, ['pow', False, x, ['int', 2]], ['int', 3]], 'witness/tower'),
+        W(['add', False, x, ['mul', False, ['int', -1], ['add', False, y, z]]], 'witness/negsum'),
+        W(['mul', False, ['int', -1], ['add', True, ['int', 2], x]], 'witness/negsum'),
+        W(['mul', False, z, ['pow', False, ['pow', False, x, ['int', -1]], ['int', -1]]], 'witness/denominator'),
+        W(['mul', False, x, ['pow', False, ['rat', 1, 3], ['int', -1]]], 'witness/denominator'),
+        W(['add', False, z, ['mul', False, ['int', -1], ['pow', False, ['rat', 2, 3], ['int', -1]]]],
+          'witness/denominator'),
+        # strings pinned by tests/test_printer.py
+        W(['mul', False, ['int', -2], x, ['pow', False, ['mul', False, y, y], ['int', -1]]], 'pinned'),
+        W(['mul', True, x, ['pow', True, y, ['rat', -2, 3]]], 'pinned'),
+        W(['pow', True, ['int', 2], ['fn', 'sec', True, x]], 'pinned'),
+        W(['rel', '==', True, x, ['rel', '==', True, y, z]], 'pinned'),
+        W(['pw', True, [['int', 0], ['rel', '>', True, x, ['int', 0]]], [['int', 1], ['rel', '>', True, x, ['int', 1]]],
+           [['int', 2], ['const', 'true']]], 'pinned'),
+    ]
+    for f in EXTRA:       # the rewriting itself, where SymPy's rebuilding is the identity
+        for a in (x, ['add', True, x, ['int', 1]], ['pow', True, x, ['int', -1]]):
+            out.append({'r': ['fn', f, True, a], 'g': 'rewrite', 'rw': True})
+    return out
 
 
 def gen(rng, n, tier):
